@@ -548,3 +548,116 @@ func (e *Env) driveProc(tag string, table map[string]Scenario, states []procStat
 	}
 	return all, total, nil
 }
+
+// storm: N real processes started together with no gating at all (the OS picks
+// the schedule); the observed replies and final state must still be explained
+// by some serial order of the commands that reported success.
+func (e *Env) storm(tag string, scn Scenario, cmds []Cmd, workdir string, only []string) (*Obs, error) {
+	st, err := newStore(e.Ergo, workdir)
+	if err != nil {
+		return nil, err
+	}
+	defer os.RemoveAll(workdir)
+	if err := writeCraftedLog(st, scn.Init); err != nil {
+		return nil, err
+	}
+	ids := newIDMap()
+	rawPre := st.readLog()
+	plPre := parseLog(rawPre, ids, true)
+	pre := st.observe(ids)
+	type res struct {
+		r RunResult
+		c Cmd
+	}
+	results := make([]res, len(cmds))
+	var wg sync.WaitGroup
+	start := make(chan struct{})
+	for i, c := range cmds {
+		c := complete(c)
+		args, stdin := invocation(c, ids)
+		wg.Add(1)
+		go func(i int) {
+			defer wg.Done()
+			<-start
+			results[i] = res{st.run(stdin, nil, args...), c}
+		}(i)
+	}
+	close(start)
+	wg.Wait()
+	rawPost := st.readLog()
+	plPost := parseLog(rawPost, ids, true)
+	post := st.observe(ids)
+	rk := newRanker()
+	rk.addView(pre.View)
+	rk.addView(post.View)
+	rk.addLog(plPre)
+	rk.addLog(plPost)
+	tab := rk.table()
+	o := &Obs{Tag: tag, Cmd: Cmd{"name": "conc", "mode": "json", "scenario": scn.Name + "-storm", "schedule": "uncontrolled"}, Exit: 0,
+		Reply: Reply{IDs: []string{}, Edges: [][2]string{}, Pruned: []string{}},
+		Out:   outFacts{JSON: true, Values: 1}, Readable: pre.Readable && post.Readable, ListShow: true, Faithful: true,
+		Pre: rankView(pre.View, tab), Post: rankView(post.View, tab), LogPre: rankLog(plPre, tab), LogPost: rankLog(plPost, tab),
+		Gone: []string{}, Facts: map[string]any{}, Only: only, Procs: []procRec{}, Readers: []readerRec{}, After: []afterRec{}}
+	timeouts := 0
+	for i, rs := range results {
+		c := rs.c
+		pr := procRec{Name: fmt.Sprintf("p%d", i+1), Cmd: c, Exit: rs.r.Exit, Inv: 1, Res: 0,
+			Busy: strings.Contains(string(rs.r.Stderr), "lock busy"), stderr: string(rs.r.Stderr)}
+		if rs.r.TimedOut {
+			timeouts++
+		}
+		pr.Reply = parseReply(c, rs.r.Stdout, ids)
+		if nm := c.name(); (nm == "new_task" || nm == "new_epic") && pr.Reply.ID != "" {
+			c["newids"] = []string{pr.Reply.ID}
+		} else if nm == "plan" && pr.Reply.ID != "" {
+			c["newids"] = append([]string{pr.Reply.ID}, pr.Reply.IDs...)
+		}
+		pr.Cmd = c
+		o.Procs = append(o.Procs, pr)
+	}
+	o.Facts["crashes"] = 0
+	o.Facts["torn"] = "none"
+	o.Facts["log_ok"] = plPost.ok
+	o.Facts["all_exited"] = timeouts == 0
+	o.Facts["readable_after_crash"] = post.Readable
+	return o, nil
+}
+
+// storms runs `rounds` uncontrolled runs per scenario, each with `n` commands
+// drawn (with repetition, fresh agents) from the scenario's own commands.
+func (e *Env) storms(table map[string]Scenario, names []string, rounds, n int, only []string, seed int64) ([]*Obs, error) {
+	rng := newRand(seed)
+	var all []*Obs
+	for _, name := range names {
+		scn, ok := table[name]
+		if !ok {
+			continue
+		}
+		scn.Name = name
+		var pool []Cmd
+		var keys []string
+		for k := range scn.Cmds {
+			keys = append(keys, k)
+		}
+		sort.Strings(keys)
+		for _, k := range keys {
+			pool = append(pool, scn.Cmds[k])
+		}
+		for r := 0; r < rounds; r++ {
+			var cmds []Cmd
+			for i := 0; i < n; i++ {
+				c := complete(pool[rng.Intn(len(pool))])
+				if c.name() == "claim" || c.name() == "claim_id" {
+					c["agent"] = fmt.Sprintf("s%d", i+1)
+				}
+				cmds = append(cmds, c)
+			}
+			o, err := e.storm("e3s", scn, cmds, filepath.Join(e.Scratch, fmt.Sprintf("storm-%s-%d", name, r)), only)
+			if err != nil {
+				return nil, err
+			}
+			all = append(all, o)
+		}
+	}
+	return all, nil
+}
